@@ -635,18 +635,457 @@ theorem copy_store_default_carried (page : Nat) (now : Int) (keyBase : Nat) (src
   obtain ⟨h1, h2, h3⟩ := copyLoop_ok _ _ _ _ _ _ _ _ hl
   exact ⟨h1, h2, h3⟩
 
-/- OPEN: copy_store_all_profiles (full form)
-   theorem copy_store_all_profiles (page now keyBase) (src src' dst' : StoreSt)
-       (hs : Sorted src.db) (hwf : ProfilesWF src.db) (hcc : CacheCoherent src.db src.h)
-       (h : copyStore page now none keyBase src none true = (src', some dst', .ok ())) :
-       (∀ name, name ∈ dst'.db.profiles.map (·.name) ↔ name ∈ src.db.profiles.map (·.name) ∨ name = src.default) ∧
-       (∀ P ∈ src.db.profiles.map (·.name), ∃ ss sd hs', resolve src.db src'.h P = .ok (ss, hs') ∧
-           resolve dst'.db dst'.h P = .ok (sd, dst'.h) ∧ liveAbs now sd dst'.db = liveAbs now ss src.db)
-   Proved so far: every step of the loop (`copy_profile_exact`, with its frame clause: profiles with another profile id
-   keep their content), the loop's effect on source / default (`copyLoop_ok`).  Missing: the loop invariant that the
-   target's handle stays coherent with its `profiles` table (`CacheCoherent` + `ProfilesWF`, available for
-   `createProfile`/`resolve` in Lemmas/Refine.lean), from which distinct names resolve to distinct profile ids, so that
-   the frame clause carries each copied profile's content to the end of the loop. -/
+/-! ### the whole-store loop: invariant of the target -/
+
+/-- What the loop of `copy_store` maintains about the *target*: its handle's key cache says what its `profiles` table
+    says, profile names and ids are unique, every row belongs to a profile of the table, and no row carries an expiry
+    (the import never writes one, a freshly provisioned target has no rows). -/
+structure TargetInv (dst : StoreSt) : Prop where
+  coherent : CacheCoherent dst.db dst.h
+  wf : ProfilesWF dst.db
+  fk : FkInv dst.db
+  noExpiry : ∀ it ∈ dst.db.items, it.expiry = none
+
+theorem wf_name_inj : ∀ l : List Profile, l.Pairwise (fun a b => a.name ≠ b.name ∧ a.id ≠ b.id) →
+    ∀ a ∈ l, ∀ b ∈ l, a.name = b.name → a = b := by
+  intro l
+  induction l with
+  | nil => intro _ a ha; cases ha
+  | cons x l ih =>
+    intro hw a ha b hb hn
+    rw [List.pairwise_cons] at hw
+    simp only [List.mem_cons] at ha hb
+    rcases ha with rfl | ha <;> rcases hb with rfl | hb
+    · rfl
+    · exact absurd hn (hw.1 b hb).1
+    · exact absurd hn.symm (hw.1 a ha).1
+    · exact ih hw.2 a ha b hb hn
+
+theorem wf_id_inj : ∀ l : List Profile, l.Pairwise (fun a b => a.name ≠ b.name ∧ a.id ≠ b.id) →
+    ∀ a ∈ l, ∀ b ∈ l, a.id = b.id → a = b := by
+  intro l
+  induction l with
+  | nil => intro _ a ha; cases ha
+  | cons x l ih =>
+    intro hw a ha b hb hn
+    rw [List.pairwise_cons] at hw
+    simp only [List.mem_cons] at ha hb
+    rcases ha with rfl | ha <;> rcases hb with rfl | hb
+    · rfl
+    · exact absurd hn (hw.1 b hb).2
+    · exact absurd hn.symm (hw.1 a ha).2
+    · exact ih hw.2 a ha b hb hn
+
+/-- with a coherent cache and unique names, a profile of the table resolves to its own id and key -/
+theorem resolve_of_mem (db : Db) (h : Handle) (q : Profile) (hc : CacheCoherent db h) (hw : ProfilesWF db)
+    (hq : q ∈ db.profiles) : ∃ hd, resolve db h q.name = .ok (⟨q.id, q.key⟩, hd) := by
+  unfold resolve
+  cases hg : cacheGet h.cache q.name with
+  | some v =>
+    obtain ⟨pid, key⟩ := v
+    have hm := hc q.name pid key hg
+    have := wf_name_inj _ hw _ hm q hq rfl
+    have h1 : pid = q.id := by rw [← this]
+    have h2 : key = q.key := by rw [← this]
+    subst h1 h2
+    exact ⟨_, rfl⟩
+  | none =>
+    cases hf : db.profiles.find? (·.name == q.name) with
+    | none =>
+      have := List.find?_eq_none.mp hf q hq
+      simp at this
+    | some p =>
+      have hmem := List.mem_of_find?_eq_some hf
+      have hname : p.name = q.name := by simpa using List.find?_some hf
+      have := wf_name_inj _ hw _ hmem q hq hname
+      subst this
+      exact ⟨_, rfl⟩
+
+theorem provision_targetInv (keyBase : Nat) (profile : String) : TargetInv (provision keyBase profile) := by
+  refine ⟨?_, ?_, ?_, ?_⟩
+  · intro name pid key hg
+    simp only [provision, cacheGet, List.find?_cons, List.find?_nil] at hg
+    split at hg
+    · rename_i hn
+      simp only [beq_iff_eq] at hn
+      simp only [Option.map_some, Option.some.injEq, Prod.mk.injEq] at hg
+      obtain ⟨rfl, rfl⟩ := hg
+      subst hn
+      simp [provision]
+    · cases hg
+  · simp [ProfilesWF, provision]
+  · intro it hit; simp [provision] at hit
+  · intro it hit; simp [provision] at hit
+
+theorem afterCreate_targetInv (dst : StoreSt) (toP : String) (hI : TargetInv dst) : TargetInv (afterCreate dst toP) := by
+  unfold afterCreate
+  cases hc : createProfile dst.db dst.h toP with
+  | error e => exact hI
+  | ok v =>
+    obtain ⟨db, h⟩ := v
+    obtain ⟨h1, h2⟩ := cache_coherent_create _ _ _ _ _ hI.coherent hI.wf hc
+    have hdb : db.items = dst.db.items ∧ ∃ q, db.profiles = dst.db.profiles ++ [q] := by
+      unfold createProfile at hc
+      split at hc
+      · cases hc
+      · injection hc with hc
+        injection hc with e1 e2
+        subst e1
+        exact ⟨rfl, _, rfl⟩
+    obtain ⟨hitems, q, hprof⟩ := hdb
+    refine ⟨h1, h2, ?_, ?_⟩
+    · intro it hit
+      simp only at hit ⊢
+      rw [hitems] at hit
+      obtain ⟨p, hp, hpid⟩ := hI.fk it hit
+      exact ⟨p, by rw [hprof]; exact List.mem_append_left _ hp, hpid⟩
+    · intro it hit
+      simp only at hit
+      rw [hitems] at hit
+      exact hI.noExpiry it hit
+
+/-- the profile names after `create_profile` (Duplicate ignored): the old ones and `toP`; old rows of the table stay -/
+theorem afterCreate_profiles (dst : StoreSt) (toP : String) :
+    (∀ name, name ∈ (afterCreate dst toP).db.profiles.map (·.name) ↔ name ∈ dst.db.profiles.map (·.name) ∨ name = toP) ∧
+    (∀ q ∈ dst.db.profiles, q ∈ (afterCreate dst toP).db.profiles) := by
+  unfold afterCreate
+  cases hc : createProfile dst.db dst.h toP with
+  | error e =>
+    unfold createProfile at hc
+    split at hc
+    · rename_i hany
+      obtain ⟨p, hp, hn⟩ := List.any_eq_true.mp hany
+      simp only [beq_iff_eq] at hn
+      refine ⟨?_, fun q hq => hq⟩
+      intro name
+      constructor
+      · exact Or.inl
+      · rintro (h | rfl)
+        · exact h
+        · exact List.mem_map.mpr ⟨p, hp, hn⟩
+    · cases hc
+  | ok v =>
+    obtain ⟨db, h⟩ := v
+    unfold createProfile at hc
+    split at hc
+    · cases hc
+    · injection hc with hc
+      injection hc with e1 e2
+      subst e1
+      refine ⟨?_, fun q hq => List.mem_append_left _ hq⟩
+      intro name
+      simp only [List.map_append, List.map_cons, List.map_nil, List.mem_append, List.mem_singleton]
+
+theorem abs_eq_liveAbs (now : Int) (s : Sess) (db : Db) (h : ∀ it ∈ db.items, it.expiry = none) :
+    abs s db = liveAbs now s db := by
+  unfold abs liveAbs
+  congr 1
+  apply List.filter_congr
+  intro it hit
+  simp [live_of_none now it (h it hit)]
+
+/-- One successful iteration of the loop, seen from the target's invariant. -/
+theorem copyProfile_step (page : Nat) (now : Int) (n : Nat) (src dst : StoreSt) (P : String)
+    (src' dst' : StoreSt) (n' : Nat) (hsorted : Sorted src.db) (hcs : CacheCoherent src.db src.h) (hI : TargetInv dst)
+    (h : copyProfile page now none n src dst P P = (src', dst', n', .ok ())) :
+    src'.db = src.db ∧ CacheCoherent src.db src'.h ∧ TargetInv dst' ∧
+    (∀ name, name ∈ dst'.db.profiles.map (·.name) ↔ name ∈ dst.db.profiles.map (·.name) ∨ name = P) ∧
+    (∀ q ∈ dst.db.profiles, q ∈ dst'.db.profiles) ∧
+    ∃ ss sd : Sess, (⟨ss.pid, P, ss.key⟩ : Profile) ∈ src.db.profiles ∧ (⟨sd.pid, P, sd.key⟩ : Profile) ∈ dst'.db.profiles ∧
+      abs sd dst'.db = liveAbs now ss src.db ∧ KeyCoherent sd dst'.db ∧
+      (∀ s : Sess, s.pid ≠ sd.pid → abs s dst'.db = abs s dst.db ∧ (KeyCoherent s dst.db → KeyCoherent s dst'.db)) := by
+  cases hsrc : resolve src.db src.h P with
+  | error e => simp [copyProfile, hsrc] at h
+  | ok v =>
+    obtain ⟨ss, hs⟩ := v
+    rw [copyProfile_unfold _ _ _ _ _ _ _ _ ss hs hsrc] at h
+    simp only [Prod.mk.injEq] at h
+    obtain ⟨rfl, h1, h2, h3⟩ := h
+    have hc : copyInto page now none n (some src.db) ss dst P = (dst', n', .ok ()) := by
+      rw [← h1, ← h2, ← h3]
+    obtain ⟨sd, rows, hres, hempty, hitems, hmap, hrows, hkeys, hprof, hdef, hn⟩ := copyInto_ok _ _ _ _ _ _ _ _ _ hc
+    simp only [Option.getD_some] at hmap hkeys
+    obtain ⟨hcs', hpsrc⟩ := cache_coherent_resolve _ _ _ _ _ hcs hsrc
+    have hA := afterCreate_targetInv dst P hI
+    obtain ⟨hcd, hpdst⟩ := cache_coherent_resolve _ _ _ _ _ hA.coherent hres
+    obtain ⟨hnames, hmono⟩ := afterCreate_profiles dst P
+    -- no old row of the target sits under the target profile's id
+    have hnone : ∀ it ∈ dst.db.items, it.pid ≠ sd.pid := by
+      intro it hit hp
+      have hit' : it ∈ (afterCreate dst P).db.items := by rw [afterCreate_items]; exact hit
+      have := liveAbs_nil_no_live _ _ _ hempty it hit' hp
+      rw [live_of_none now it (hI.noExpiry it hit)] at this
+      cases this
+    have hfilt : ∀ s : Sess, s.pid ≠ sd.pid → rows.filter (·.pid == s.pid) = [] := by
+      intro s hne
+      apply List.filter_eq_nil_iff.mpr
+      intro r hr
+      have := (hrows r hr).1
+      simp only [beq_iff_eq]
+      intro h'
+      exact hne (h'.symm.trans this)
+    refine ⟨rfl, hcs', ⟨?_, ?_, ?_, ?_⟩, ?_, ?_, ss, sd, hpsrc, ?_, ?_, ?_, ?_⟩
+    · intro name pid key hg
+      rw [hprof]
+      exact hcd name pid key hg
+    · unfold ProfilesWF; rw [hprof]; exact hA.wf
+    · intro it hit
+      rw [hitems] at hit
+      rw [hprof]
+      rcases List.mem_append.mp hit with hit | hit
+      · exact hA.fk it (by rw [afterCreate_items]; exact hit)
+      · exact ⟨_, hpdst, ((hrows it hit).1).symm⟩
+    · intro it hit
+      rw [hitems] at hit
+      rcases List.mem_append.mp hit with hit | hit
+      · exact hI.noExpiry it hit
+      · exact (hrows it hit).2.2
+    · intro name; rw [hprof]; exact hnames name
+    · intro q hq; rw [hprof]; exact hmono q hq
+    · rw [hprof]; exact hpdst
+    · unfold abs
+      rw [hitems, List.filter_append, List.map_append]
+      have h0 : dst.db.items.filter (·.pid == sd.pid) = [] := by
+        apply List.filter_eq_nil_iff.mpr
+        intro it hit
+        simpa using hnone it hit
+      have h1 : rows.filter (·.pid == sd.pid) = rows := by
+        apply List.filter_eq_self.mpr
+        intro r hr
+        simp [(hrows r hr).1]
+      rw [h0, h1, List.map_nil, List.nil_append, hmap, scanRows_sorted _ _ _ hsorted]
+    · intro it hit hp
+      rw [hitems] at hit
+      rcases List.mem_append.mp hit with hit | hit
+      · exact absurd hp (hnone it hit)
+      · exact (hrows it hit).2.1
+    · intro s hne
+      constructor
+      · unfold abs
+        rw [hitems, List.filter_append, hfilt s hne, List.append_nil]
+      · intro hK it hit hp
+        rw [hitems] at hit
+        rcases List.mem_append.mp hit with hit | hit
+        · exact hK it hit hp
+        · exact absurd (hp.symm.trans (hrows it hit).1) hne
+
+/-! ### `SELECT name FROM profiles` -/
+
+theorem mem_insertName (x y : String) : ∀ l : List String, y ∈ insertName x l ↔ y = x ∨ y ∈ l := by
+  intro l
+  induction l with
+  | nil => simp [insertName]
+  | cons z l ih =>
+    simp only [insertName]
+    split
+    · simp only [List.mem_cons, ih]
+      constructor
+      · rintro (h | h | h)
+        · exact Or.inr (Or.inl h)
+        · exact Or.inl h
+        · exact Or.inr (Or.inr h)
+      · rintro (h | h | h)
+        · exact Or.inr (Or.inl h)
+        · exact Or.inl h
+        · exact Or.inr (Or.inr h)
+    · simp only [List.mem_cons]
+
+theorem nodup_insertName (x : String) : ∀ l : List String, x ∉ l → l.Nodup → (insertName x l).Nodup := by
+  intro l
+  induction l with
+  | nil => intro _ _; simp [insertName]
+  | cons z l ih =>
+    intro hx hl
+    simp only [List.mem_cons, not_or] at hx
+    simp only [insertName]
+    split
+    · rw [List.nodup_cons] at hl ⊢
+      refine ⟨?_, ih hx.2 hl.2⟩
+      rw [mem_insertName]
+      rintro (h | h)
+      · exact hx.1 h.symm
+      · exact hl.1 h
+    · rw [List.nodup_cons]
+      exact ⟨by simp only [List.mem_cons, not_or]; exact hx, hl⟩
+
+theorem mem_foldr_insertName (y : String) : ∀ l : List String, y ∈ l.foldr insertName [] ↔ y ∈ l := by
+  intro l
+  induction l with
+  | nil => simp
+  | cons x l ih => simp only [List.foldr_cons, mem_insertName, ih, List.mem_cons]
+
+theorem nodup_foldr_insertName : ∀ l : List String, l.Nodup → (l.foldr insertName []).Nodup := by
+  intro l
+  induction l with
+  | nil => intro _; simp
+  | cons x l ih =>
+    intro hl
+    rw [List.nodup_cons] at hl
+    simp only [List.foldr_cons]
+    exact nodup_insertName x _ (by rw [mem_foldr_insertName]; exact hl.1) (ih hl.2)
+
+theorem mem_listProfiles (db : Db) (name : String) : name ∈ listProfiles db ↔ name ∈ db.profiles.map (·.name) :=
+  mem_foldr_insertName name _
+
+theorem nodup_profile_names (db : Db) (hw : ProfilesWF db) : (db.profiles.map (·.name)).Nodup := by
+  unfold ProfilesWF at hw
+  unfold List.Nodup
+  rw [List.pairwise_map]
+  exact hw.imp fun h => h.1
+
+theorem nodup_listProfiles (db : Db) (hw : ProfilesWF db) : (listProfiles db).Nodup :=
+  nodup_foldr_insertName _ (nodup_profile_names db hw)
+
+/-! ### the loop as a whole -/
+
+/-- **the loop invariant of `copy_store`**: a successful loop over pairwise distinct names keeps the target's
+    invariant, adds exactly the listed names to the target's `profiles` table, leaves every listed profile with the
+    live records of the source profile of that name (under the target's own id and key), and does not disturb the
+    target profiles that are not listed. -/
+theorem copyLoop_inv (page : Nat) (now : Int) : ∀ (ps : List String) (n : Nat) (src dst src' dst' : StoreSt),
+    copyLoop page now none n src dst ps = (src', dst', .ok ()) →
+    ps.Nodup → Sorted src.db → CacheCoherent src.db src.h → TargetInv dst →
+    src'.db = src.db ∧ CacheCoherent src.db src'.h ∧ TargetInv dst' ∧
+    (∀ name, name ∈ dst'.db.profiles.map (·.name) ↔ name ∈ dst.db.profiles.map (·.name) ∨ name ∈ ps) ∧
+    (∀ q ∈ dst.db.profiles, q ∈ dst'.db.profiles) ∧
+    (∀ P ∈ ps, ∃ ss sd : Sess, (⟨ss.pid, P, ss.key⟩ : Profile) ∈ src.db.profiles ∧
+      (⟨sd.pid, P, sd.key⟩ : Profile) ∈ dst'.db.profiles ∧
+      abs sd dst'.db = liveAbs now ss src.db ∧ KeyCoherent sd dst'.db) ∧
+    (∀ q ∈ dst.db.profiles, q.name ∉ ps →
+      abs ⟨q.id, q.key⟩ dst'.db = abs ⟨q.id, q.key⟩ dst.db ∧
+      (KeyCoherent ⟨q.id, q.key⟩ dst.db → KeyCoherent ⟨q.id, q.key⟩ dst'.db)) := by
+  intro ps
+  induction ps with
+  | nil =>
+    intro n src dst src' dst' h _ _ hcs hI
+    simp only [copyLoop, Prod.mk.injEq, and_true] at h
+    obtain ⟨rfl, rfl⟩ := h
+    refine ⟨rfl, hcs, hI, by simp, fun q hq => hq, by simp, fun q _ _ => ⟨rfl, id⟩⟩
+  | cons P ps ih =>
+    intro n src dst src' dst' h hnd hsorted hcs hI
+    rw [List.nodup_cons] at hnd
+    simp only [copyLoop] at h
+    split at h
+    · simp only [Prod.mk.injEq, reduceCtorEq, and_false] at h
+    · rename_i s1 d1 n1 hstep
+      obtain ⟨hdb1, hcs1, hI1, hnames1, hmono1, ss, sd, hpsrc, hpdst, habs, hkc, hframe⟩ :=
+        copyProfile_step page now n src dst P s1 d1 n1 hsorted hcs hI hstep
+      obtain ⟨hdb2, hcs2, hI2, hnames2, hmono2, hall2, hframe2⟩ :=
+        ih n1 s1 d1 src' dst' h hnd.2 (by rw [hdb1]; exact hsorted) (by rw [hdb1]; exact hcs1) hI1
+      rw [hdb1] at hdb2 hcs2 hall2
+      refine ⟨hdb2, hcs2, hI2, ?_, fun q hq => hmono2 q (hmono1 q hq), ?_, ?_⟩
+      · intro name
+        rw [hnames2, hnames1, List.mem_cons, or_assoc]
+      · intro P' hP'
+        rcases List.mem_cons.mp hP' with rfl | hP'
+        · obtain ⟨e1, e2⟩ := hframe2 ⟨sd.pid, P', sd.key⟩ hpdst hnd.1
+          exact ⟨ss, sd, hpsrc, hmono2 _ hpdst, e1.trans habs, e2 hkc⟩
+        · exact hall2 P' hP'
+      · intro q hq hqn
+        simp only [List.mem_cons, not_or] at hqn
+        have hq1 := hmono1 q hq
+        have hne : q.id ≠ sd.pid := by
+          intro he
+          have := wf_id_inj _ hI1.wf q hq1 _ hpdst he
+          rw [this] at hqn
+          exact hqn.1 rfl
+        obtain ⟨e1, e2⟩ := hframe ⟨q.id, q.key⟩ hne
+        obtain ⟨f1, f2⟩ := hframe2 q hq1 hqn.2
+        exact ⟨f1.trans e1, fun hK => f2 (e2 hK)⟩
+
+theorem copyStore_fresh_loop (page : Nat) (now : Int) (keyBase : Nat) (src src' dst' : StoreSt) (existing : Option StoreSt)
+    (recreate : Bool) (hfresh : existing = none ∨ recreate = true)
+    (h : copyStore page now none keyBase src existing recreate = (src', some dst', .ok ())) :
+    copyLoop page now none 0 src (provision keyBase src.default) (listProfiles src.db) = (src', dst', .ok ()) := by
+  have h' : ((copyLoop page now none 0 src (provision keyBase src.default) (listProfiles src.db)).1,
+      some (copyLoop page now none 0 src (provision keyBase src.default) (listProfiles src.db)).2.1,
+      (copyLoop page now none 0 src (provision keyBase src.default) (listProfiles src.db)).2.2) =
+      (src', some dst', Except.ok ()) := by
+    rw [← h]
+    rcases hfresh with rfl | rfl
+    · cases recreate <;> rfl
+    · cases existing <;> rfl
+  simp only [Prod.mk.injEq, Option.some.injEq] at h'
+  obtain ⟨h1, h2, h3⟩ := h'
+  rw [← h1, ← h2, ← h3]
+
+/-- **copy_store_all_profiles**, general form (no assumption on `config.default_profile`): after a successful
+    `copy_store` / `copy_to` onto a freshly provisioned target, the target has the source's profile names plus the
+    source's default profile name; the target's handle is coherent with its table, names and ids are unique, every row
+    belongs to a profile and none expires; every source profile arrives with its live records, readable through the
+    target's own handle under the target's own key; when the default profile name is dangling, the extra target profile
+    is empty.  The source's tables and default are untouched and its handle stays coherent. -/
+theorem copy_store_all_profiles_gen (page : Nat) (now : Int) (keyBase : Nat) (src src' dst' : StoreSt)
+    (existing : Option StoreSt) (recreate : Bool) (hfresh : existing = none ∨ recreate = true)
+    (hs : Sorted src.db) (hwf : ProfilesWF src.db) (hcc : CacheCoherent src.db src.h)
+    (h : copyStore page now none keyBase src existing recreate = (src', some dst', .ok ())) :
+    (src'.db = src.db ∧ src'.default = src.default ∧ CacheCoherent src.db src'.h) ∧ dst'.default = src.default ∧
+    (CacheCoherent dst'.db dst'.h ∧ ProfilesWF dst'.db ∧ FkInv dst'.db ∧ ∀ it ∈ dst'.db.items, it.expiry = none) ∧
+    (∀ name, name ∈ dst'.db.profiles.map (·.name) ↔ name ∈ src.db.profiles.map (·.name) ∨ name = src.default) ∧
+    (∀ p ∈ src.db.profiles, ∃ (hs' : Handle) (sd : Sess) (hd : Handle),
+      resolve src.db src.h p.name = .ok (⟨p.id, p.key⟩, hs') ∧
+      resolve dst'.db dst'.h p.name = .ok (sd, hd) ∧
+      abs sd dst'.db = liveAbs now ⟨p.id, p.key⟩ src.db ∧ KeyCoherent sd dst'.db) ∧
+    (src.default ∉ src.db.profiles.map (·.name) → ∃ (sd : Sess) (hd : Handle),
+      resolve dst'.db dst'.h src.default = .ok (sd, hd) ∧ abs sd dst'.db = []) := by
+  have hl := copyStore_fresh_loop page now keyBase src src' dst' existing recreate hfresh h
+  obtain ⟨d1, d2, d3⟩ := copyLoop_ok _ _ _ _ _ _ _ _ hl
+  obtain ⟨_, hcs', hI, hnames, hmono, hall, hframe⟩ :=
+    copyLoop_inv page now _ _ _ _ _ _ hl (nodup_listProfiles _ hwf) hs hcc (provision_targetInv _ _)
+  refine ⟨⟨d1, d2, hcs'⟩, d3, ⟨hI.coherent, hI.wf, hI.fk, hI.noExpiry⟩, ?_, ?_, ?_⟩
+  · intro name
+    rw [hnames, mem_listProfiles]
+    simp only [provision, List.map_cons, List.map_nil, List.mem_singleton]
+    exact or_comm
+  · intro p hp
+    obtain ⟨ss, sd, hpsrc, hpdst, habs, hkc⟩ := hall p.name ((mem_listProfiles _ _).mpr (List.mem_map_of_mem hp))
+    have hss := wf_name_inj _ hwf _ hpsrc p hp rfl
+    have e1 : ss.pid = p.id := by rw [← hss]
+    have e2 : ss.key = p.key := by rw [← hss]
+    obtain ⟨hs', hr⟩ := resolve_of_mem src.db src.h p hcc hwf hp
+    obtain ⟨hd, hrd⟩ := resolve_of_mem dst'.db dst'.h _ hI.coherent hI.wf hpdst
+    refine ⟨hs', sd, hd, hr, hrd, ?_, hkc⟩
+    rw [habs]
+    cases ss
+    simp only at e1 e2
+    subst e1 e2
+    rfl
+  · intro hdangling
+    have hq : (⟨1, src.default, keyBase⟩ : Profile) ∈ (provision keyBase src.default).db.profiles := by simp [provision]
+    obtain ⟨f1, _⟩ := hframe _ hq (by rw [mem_listProfiles]; exact hdangling)
+    obtain ⟨hd, hrd⟩ := resolve_of_mem dst'.db dst'.h _ hI.coherent hI.wf (hmono _ hq)
+    refine ⟨_, hd, hrd, ?_⟩
+    rw [f1]
+    simp [abs, provision]
+
+/-- **copy_store_all_profiles**: a successful `copy_store` / `copy_to` onto a freshly provisioned target, from a source
+    whose default profile is one of its profiles: the target's profile names are exactly the source's (a permutation,
+    no duplicates), same default profile, and every profile holds exactly the source profile's live records. -/
+theorem copy_store_all_profiles (page : Nat) (now : Int) (keyBase : Nat) (src src' dst' : StoreSt)
+    (existing : Option StoreSt) (recreate : Bool) (hfresh : existing = none ∨ recreate = true)
+    (hs : Sorted src.db) (hwf : ProfilesWF src.db) (hcc : CacheCoherent src.db src.h)
+    (hdef : src.default ∈ src.db.profiles.map (·.name))
+    (h : copyStore page now none keyBase src existing recreate = (src', some dst', .ok ())) :
+    (src'.db = src.db ∧ src'.default = src.default ∧ CacheCoherent src.db src'.h) ∧ dst'.default = src.default ∧
+    (CacheCoherent dst'.db dst'.h ∧ ProfilesWF dst'.db ∧ FkInv dst'.db ∧ ∀ it ∈ dst'.db.items, it.expiry = none) ∧
+    (∀ name, name ∈ dst'.db.profiles.map (·.name) ↔ name ∈ src.db.profiles.map (·.name)) ∧
+    (dst'.db.profiles.map (·.name)).Perm (src.db.profiles.map (·.name)) ∧
+    (∀ p ∈ src.db.profiles, ∃ (hs' : Handle) (sd : Sess) (hd : Handle),
+      resolve src.db src.h p.name = .ok (⟨p.id, p.key⟩, hs') ∧
+      resolve dst'.db dst'.h p.name = .ok (sd, hd) ∧
+      abs sd dst'.db = liveAbs now ⟨p.id, p.key⟩ src.db ∧ KeyCoherent sd dst'.db) := by
+  obtain ⟨hsrc, d3, hI, hnames, hall, _⟩ :=
+    copy_store_all_profiles_gen page now keyBase src src' dst' existing recreate hfresh hs hwf hcc h
+  have hnames' : ∀ name, name ∈ dst'.db.profiles.map (·.name) ↔ name ∈ src.db.profiles.map (·.name) := by
+    intro name
+    rw [hnames]
+    constructor
+    · rintro (h | rfl)
+      · exact h
+      · exact hdef
+    · exact Or.inl
+  exact ⟨hsrc, d3, hI, hnames',
+    (List.perm_ext_iff_of_nodup (nodup_profile_names _ hI.2.1) (nodup_profile_names _ hwf)).mpr hnames', hall⟩
 
 /-! ### what does not hold on the current code -/
 
